@@ -42,6 +42,14 @@ macro_rules! pstr_runner {
                         }
                         None => "-".to_string(),
                     },
+                    "copysl" => match h.as_mut() {
+                        Some(x) => {
+                            // the unsafe byte-level copy called directly; the cases pass ASCII text
+                            unsafe { x.copy_from_slice(&arg) };
+                            "U".to_string()
+                        }
+                        None => "-".to_string(),
+                    },
                     "asstr" => match h.as_ref() {
                         Some(x) => {
                             let s: &str = x.as_str();
